@@ -23,7 +23,18 @@ def handleDiff (i o : Json) : Except String Verdict := do
     let v3 ← need "relabel" fun d => redeclareMerges k "ZZlbl" b d
     let v4 ← need "twin" fun d => redeclareMerges k "ZZtwin" b d
     let v5 ← need "primary" fun d => primaryLastWins k "ZZprim" b d
-    return violToVerdict (firstViol [v1, v2, v3, v4, v5])
+    let v6 ← match ← obsOf o "oattr" with
+      | .graph w => need "oattrnull" fun d => attrNullRemovesAttr k w d
+      | _ => pure (some ("redeclaration-rejected", s!"{k}.style.opacity: 0.35"))
+    let eref := match getStr i "eref" with | .ok s => s | .error _ => ""
+    let v7 ← if eref.isEmpty then pure none else
+      match ← obsOf o "eattr" with
+      | .graph w => do
+        let a ← need "eattrnull" fun d => edgeAttrNullRemovesAttr s!"`{eref}.style.opacity: null`" w d
+        let b ← need "emapnull" fun d => edgeAttrNullRemovesAttr ("`" ++ eref ++ ": {style.opacity: null}`") w d
+        pure (firstViol [a, b])
+      | _ => pure (some ("redeclaration-rejected", s!"{eref}.style.opacity: 0.35"))
+    return violToVerdict (firstViol [v1, v2, v3, v4, v5, v6, v7])
   | _ => return .bad "base program of a differential case does not compile"
 
 def handleC10 (j : Json) : Except String Verdict := do
